@@ -65,6 +65,12 @@ def execute(run, cov, log):
     cov.add('domains', run['domain'])
 
 
+def preload():
+    from sim import repo
+    repo.mod('src.initial_mesh')
+    repo.mod('src.parametrization')
+
+
 def shrink(run):
     return quadsim.shrink_run(run)
 
